@@ -259,6 +259,9 @@ pub fn random_vector(rng: &mut impl Rng, n: usize, inject: Inject) -> (Vec<Slot>
         // one-limb neighbour of an account in use
         accts.push(limb_neighbour(rng, &accts[0].clone(), None));
     }
+    // block numbers are never cross-checked by the wrapper: real slots of one accepted batch may carry different ones,
+    // and the header must then show the FIRST real slot's
+    let vary_numbers = rng.gen_bool(0.4);
     let k_real = match rng.gen_range(0..6) {
         0 => 0,
         1 => n,
@@ -290,7 +293,7 @@ pub fn random_vector(rng: &mut impl Rng, n: usize, inject: Inject) -> (Vec<Slot>
                 exit1: accts[rng.gen_range(0..accts.len())],
                 exit2: accts[rng.gen_range(0..accts.len())],
                 block_hash: block,
-                number,
+                number: if vary_numbers { f(rng.gen_range(0..=M32)) } else { number },
             }
         } else {
             // dummy: arbitrary contents (the wrapper must mask them); half are leaf-attainable dummies
@@ -627,7 +630,19 @@ fn check_private_vector(prop: &str, w: &PrivW, slots: &[Slot], pre: &[D4], rep: 
                             &format!("permutation {p:?} of an accepted private batch (N={n}) is rejected"), json!({"case": replay(), "perm": p}));
                         continue;
                     }
-                    if out2[..8] != out[..8] {
+                    // the block number of a real leaf statement is fixed by its block hash (the leaf circuit binds it inside the
+                    // header preimage, C03), so real slots of an accepted batch of LEAF STATEMENTS agree on it. Free child-PI vectors
+                    // in which they disagree are outside C09's domain for this one field (the wrapper does not cross-check block
+                    // numbers — C07 — and shows the first real slot's — C06, which is judged on those vectors).
+                    let numbers_agree = {
+                        let nums: Vec<F> = jslots.iter().filter(|s| s.block_hash != [F::ZERO; 4]).map(|s| s.number).collect();
+                        nums.windows(2).all(|w| w[0] == w[1])
+                    };
+                    let hdr_len = if numbers_agree { 8 } else { 7 };
+                    if !numbers_agree {
+                        rep.count("permutation_header_block_number_not_compared(real slots disagree on it: not leaf-attainable)");
+                    }
+                    if out2[..hdr_len] != out[..hdr_len] {
                         rep.violation("private-wrapper hiding / header depends on order",
                             &format!("header of the private-batch output changed under slot permutation {p:?}"),
                             json!({"case": replay(), "perm": p, "before": u64s(&out[..8]), "after": u64s(&out2[..8])}));
